@@ -347,6 +347,21 @@ def make_observable(d: dict, n_atoms: int, backend: str):
         return BitStrings(num_shots=d.get("shots", 100), **kw)
     if k == "state":
         return StateResult(**kw)
+    if k == "fidelity":
+        from emu_mps import MPS
+        from pulser.backend import Fidelity
+
+        bits = d.get("bits") or ("r" + "g" * (n_atoms - 1))
+        st = MPS.from_state_amplitudes(eigenstates=("r", "g"), amplitudes={bits: 1.0})
+        return Fidelity(state=st, **kw)
+    if k == "expectation":
+        from emu_mps import MPO
+        from pulser.backend import Expectation
+
+        site = int(d.get("site", 0)) % n_atoms
+        ops = [(1.0, [({"rr": 1.0}, [site])]), (0.5, [({"rg": 1.0, "gr": 1.0}, [(site + 1) % n_atoms])])]
+        op = MPO.from_operator_repr(eigenstates=("r", "g"), n_qudits=n_atoms, operations=ops)
+        return Expectation(op, **kw)
     if k == "entanglement_entropy":
         from emu_mps.observables import EntanglementEntropy
 
